@@ -237,7 +237,7 @@ class Aggregate(object):
         rdir = os.path.join(VERIF, 'replays', prop_id)
         n = 0
         for key, vs in sorted(bykey.items()):
-            if n >= 12:
+            if n >= int(os.environ.get("VERIF_MAX_REPLAYS", "25")):
                 break
             os.makedirs(rdir, exist_ok=True)
             v = min(vs, key=lambda x: (x.get('run') or {}).get('stdin_len', 0))
